@@ -170,9 +170,11 @@ AROps == {
   Say(Idx(Var("y"), S("fk")))
 }
 ARWrites == { o \in AROps : o.s # "say" }
+ARPrograms3(z) ==
+  LET W == ARWrites IN { << <<GDef>>, <<a, b, c, Say(Var("x")), Say(Var("y"))>> >> : a \in W, b \in W, c \in AROps }
 ARPrograms(z) ==
   LET W == ARWrites IN
-  { << <<GDef>>, <<a, b, c, Say(Var("x")), Say(Var("y"))>> >> : a \in W, b \in W, c \in AROps }
+  ARPrograms3(z)
   \cup (IF Tier = "quick" THEN {} ELSE { << <<GDef>>, <<a, b, c, d, Say(Var("x")), Say(Var("y"))>> >> : a \in W, b \in W, c \in W, d \in AROps })
 
 -----------------------------------------------------------------------------
